@@ -14,6 +14,7 @@ TRUSTED = [
     'of its yylex) and eval-plural.h (ceval, InRange)',
     'hand-written Gallina model Model/IntExpr.v (lex, pgo, pyeval) of lib/intexpr.py / gettext.parse_plural_expression',
     'Generated/PyConsts.v (int_max_str_digits read from the interpreter after `import lib`), regenerated every run',
+    'source translator tools/gen/gen_intexpr_src.py (python ast -> Gallina, rules in its docstring) + Lib/PySrc.v: Generated/IntExprSrc.v is trusted to mean what the methods of class Evaluator/BaseEvaluator mean; the hand-written mirror of the getattr dispatch and gcd = Z.gcd are tied by correspondence only',
     'extraction (ExtrOcamlBasic only) + ocaml/driver.ml + zarith for decimal I/O',
     'harness reference parser/evaluator (tools/harness/intexpr_lib.py ref_parse/ref_eval), written from plural.y / eval-plural.h',
     'rply itself (lexer rule order, LALR tables, precedence resolution) is not verified: it is modelled by lex + a precedence-climbing '
